@@ -46,7 +46,9 @@ inductive Site
   | tarOpen                   -- tar2sqfs.c:29  tar_open_stream
   -- init.c
   | compCfg                   -- init.c:54   compressor_cfg_init_options   (before the output file exists)
-  | openOut                   -- init.c:60   sqfs_file_open: creates the output file
+  | openOut                   -- init.c:60   sqfs_file_open → file.c:276 sqfs_native_file_open: creates the output file
+  | openHandle                -- init.c:60   sqfs_file_open → file.c:282 sqfs_file_open_handle (calloc, fstat, dup); on
+                              --             failure file.c:283-288 closes the descriptor, the created file stays
   | fsDefaults                -- init.c:66   parse_fstree_defaults
   | fstreeInit                -- init.c:69   fstree_init
   | cmpCreate                 -- init.c:72   sqfs_compressor_create
@@ -189,7 +191,7 @@ def preSites (c : Cfg) : List Site :=
 
 /-- init.c:54-196 in order -/
 def initSites (c : Cfg) : List Site :=
-  [.compCfg, .openOut, .fsDefaults, .fstreeInit, .cmpCreate, .uncmpCreate, .superInit, .superWrite, .cmpOptions,
+  [.compCfg, .openOut, .openHandle, .fsDefaults, .fstreeInit, .cmpCreate, .uncmpCreate, .superInit, .superWrite, .cmpOptions,
    .blkwrCreate, .fragtblCreate, .procCreate, .idtblCreate]
   ++ (if c.noXattr then [] else [.xwrCreate]) ++ [.imCreate, .dmCreate, .dirwrCreate]
 
@@ -242,8 +244,9 @@ structure Result where
 /-- cleanup.c:11-38 -/
 def cleanup (status : Nat) : OutFile := if status != 0 then .unlinked else .present
 
-/-- State of the output file after a failed `sqfs_writer_init`: the file exists iff `sqfs_file_open`
-    [init.c:60] had succeeded; the pinned `fail_file:` label only drops the object [init.c:218-220]. -/
+/-- State of the output file after a failed `sqfs_writer_init`: the file exists iff `sqfs_native_file_open`
+    [file.c:276, called from init.c:60] had succeeded; neither file.c:283-288 nor the pinned `fail_file:` label
+    [init.c:218-220] removes it. -/
 def afterFailedInit (v : Variant) (t : Trace) : OutFile :=
   if t.failed = some .compCfg ∨ t.failed = some .openOut then .never
   else if v.initUnlinks then .unlinked else .present
